@@ -26,7 +26,7 @@ ASSUMPTIONS = [
 
 CHECK = 0.175
 ANN = 0.225
-TOL = 0.0012
+TOL = 0.0022
 
 
 def generate(rng, tier):
@@ -74,6 +74,12 @@ def generate(rng, tier):
         elif rng.random() < 0.3:
             ops.append({"t": round(t_reg + rng.choice([0.05, 0.2, 0.34]), 6), "op": "send", "p": "O",
                         "msg": {"qr": 1, "an": [wire.RR(t1, wire.T_PTR, 0, owned[-1]).to_json()]}})
+        # the owner may also re-announce a name while the registrant is probing: for an entry that is still cached
+        # (even expired but not purged) this is a refresh, which wakes nobody
+        for _ in range(rng.choice([0, 1, 1, 2])):
+            off = rng.choice([0.001, 0.1, 0.174, 0.176, 0.2, 0.26, 0.3, 0.349, 0.351, 0.5])
+            ops.append({"t": round(t_reg + off + 0.0000005, 7), "op": "send", "p": "O",
+                        "msg": {"qr": 1, "an": [wire.RR(t1, wire.T_PTR, rng.choice([4500, 120]), rng.choice(owned)).to_json()]}})
     elif mode == "real":
         other = dict(svc)
         other["server"] = "hosth.local."
@@ -89,12 +95,13 @@ def generate(rng, tier):
     ops.sort(key=lambda o: o["t"])
     faults = {"max_delay_us": rng.choice([0, 1000, 100000, 150000]), "loop_delay_us": rng.choice([0, 500, 1000]),
               "dup_p": rng.choice([0.0, 0.1])}
-    return {"ops": ops, "faults": faults, "end": round(t_reg + 6.0, 6), "reactive": reactive, "type": t1, "mode": mode}
+    return {"ops": ops, "faults": faults, "end": round(t_reg + 6.0, 6), "reactive": reactive, "type": t1, "mode": mode,
+            "timer_slop_us": rng.choice([0, 0, 1, 50, 300])}
 
 
 def execute(scenario, seed, overrides=None):
     out = runner.Outcome()
-    w = World(seed, FaultConfig(**scenario.get("faults", {})), overrides)
+    w = World(seed, FaultConfig(**scenario.get("faults", {})), overrides, timer_slop=scenario.get("timer_slop_us", 0) / 1e6)
     stats = {"conflict_delivered_during_registration": 0, "renamed": 0, "nonunique_raised": 0, "registered": 0,
              "owner_replies": 0, "probe_sets_checked": 0, "second_registration_same_name": 0}
     try:
@@ -232,8 +239,7 @@ def _oracle(w, drv, sc, hm, stats, out):
         svc = e["svc"]
         orig = svc["name"]
         base = orig[: -len(type_) - 1]
-        allow = any(o.get("allow_name_change") for o in sc["ops"] if o["op"] == "register" and o["h"] == "R"
-                    and abs(o["t"] + t0 - e["t_call"]) < 1e-9)
+        allow = e.get("allow_name_change", False)
         t_call, t_done = e["t_call"], e["t_done"]
         probes = []
         for tx in rtx:
